@@ -262,6 +262,65 @@ func doReadOn(d *fileDesc, rs readSpec, shared *mcap.Reader) wl.Ev {
 	return e
 }
 
+// pairReadsOn advances two index-based iterators of ONE Reader in turns (with a GetMetadata / GetAttachmentReader lookup on the
+// same Reader thrown in now and then): every chunk load seeks to its own offset, so each iterator returns what it returns
+// alone.  Two Read events, judged like any index-based read.  nil when the file is not read through the index.
+func pairReadsOn(d *fileDesc, reader *mcap.Reader, orders [2]string, r *rand.Rand) (out []wl.Ev) {
+	defer func() {
+		if p := recover(); p != nil {
+			out = nil
+		}
+	}()
+	t := true
+	var its [2]mcap.MessageIterator
+	for k := range its {
+		it, err := reader.Messages(run.ReadOpts(run.IterOpts{Order: orders[k], UseIndex: &t}, nil)...)
+		if err != nil || fmt.Sprintf("%T", it) != "*mcap.indexedMessageIterator" {
+			return nil
+		}
+		its[k] = it
+	}
+	info, _ := reader.Info()
+	var ids [2][]any
+	var inexact [2]int
+	var end, why [2]string
+	msgs := [2]*mcap.Message{{}, {}}
+	for step := 0; end[0] == "" || end[1] == ""; step++ {
+		k := step % 2
+		if end[k] != "" {
+			continue
+		}
+		s, c, m, err := its[k].NextInto(msgs[k])
+		if err != nil {
+			end[k], why[k] = run.ErrClass(err), err.Error()
+			continue
+		}
+		mid := d.bySeq[m.Sequence]
+		ids[k] = append(ids[k], mid)
+		if mid == 0 || !exactTriple(d, mid, s, c, m) {
+			inexact[k]++
+		}
+		if info != nil && r.Intn(3) == 0 { // another user of the Reader's stream between two calls
+			if n := len(info.MetadataIndexes); n > 0 && r.Intn(2) == 0 {
+				_, _ = reader.GetMetadata(info.MetadataIndexes[r.Intn(n)].Offset)
+			} else if n := len(info.AttachmentIndexes); n > 0 {
+				if ar, err := reader.GetAttachmentReader(info.AttachmentIndexes[r.Intn(n)].Offset); err == nil {
+					_, _ = io.Copy(io.Discard, ar.Data())
+				}
+			}
+		}
+	}
+	for k := range its {
+		if ids[k] == nil {
+			ids[k] = []any{}
+		}
+		out = append(out, wl.Ev{"ev": "Read", "mdcb": false, "mode": "index", "order": orders[k], "hasT": false, "form": "", "hasS": false, "hasE": false,
+			"topics": []any{}, "s": 0, "e": 0, "ids": ids[k], "inexact": inexact[k], "end": end[k], "why": why[k],
+			"maxSlots": 0, "maxLive": 0, "capKiB": 0, "mds": 0, "indexed": true, "mdsMatch": "none", "paired": true})
+	}
+	return out
+}
+
 // mdMatch compares what the metadata callback received (as a multiset of exact records) with all metadata records of
 // the file ("all") and with those that have a metadata index entry ("indexed"); "both" when the two coincide.
 func mdMatch(d *fileDesc, got []any) string {
@@ -389,6 +448,13 @@ func sessionEvents(d *fileDesc, ops []string, r *rand.Rand, sid int) []wl.Ev {
 			e = doReadOn(d, readSpec{Mode: "index", Order: []string{"log", "rlog"}[(sid+k)%2]}, reader)
 		case "scan":
 			e = doReadOn(d, readSpec{Mode: "scan"}, reader)
+		case "idxpair":
+			// two index-based iterators alive at the same time, advanced in turns
+			for _, pe := range pairReadsOn(d, reader, [2]string{"file", []string{"file", "log", "rlog"}[(sid+k)%3]}, r) {
+				pe["sess"], pe["moved"], pe["sid"] = k+1, k > 0, sid
+				out = append(out, pe)
+			}
+			continue
 		default:
 			continue
 		}
